@@ -59,9 +59,12 @@ def leak_run(ctx, model, addrs, rounds, label):
     from xlcalculator import Evaluator, evaluator as evmod
     ev = Evaluator(model)
 
+    ctx_cls = getattr(evmod, 'EvaluatorContext', None)
+
     def live_contexts():
-        return sum(1 for o in gc.get_objects()
-                   if type(o) is evmod.EvaluatorContext)
+        if ctx_cls is None:
+            return 0
+        return sum(1 for o in gc.get_objects() if type(o) is ctx_cls)
 
     def one_round():
         for a in addrs:
